@@ -48,7 +48,7 @@ def check_a_c(s):
     if soup0 is not None:
         if l0 != l1:
             return ('strict-not-tolerant', 'strict: %s / tolerant: %s' % (l0[:120], l1[:120]))
-    if soup1 is not None and '\x00' not in s and '\x7f' not in s and not oracles.has_bare_args(soup1) \
+    if soup1 is not None and '\x00' not in s and '\x7f' not in s and not oracles.excused_bare_args(soup1) \
             and not oracles.hidden_bare(s) and not oracles.name_not_in_source(s, soup1):
         out = str(soup1)
         if not oracles.aligned(s, out, allow_insert=True):
